@@ -11,7 +11,7 @@ from ..emit import events_of_trace, flat_puts
 from ..engine import VERIF, load_json
 from ..facts import show, site, unwrap, walk
 from ..symx import closure_paths, cshow, paths_of, tshow
-from ..terms import is_call, same, subterms
+from ..terms import is_call, is_map_call, same, subterms
 
 FN = "ipp::attribute::IppAttributes::to_bytes"
 OP = "ipp::model::DelimiterTag::OperationAttributes"
@@ -86,6 +86,10 @@ def membership_const(F, fn_path, run):
 
 
 def check(run, views, tier, with_ops=True):
+    if with_ops:
+        from ..engine import include
+        from . import c10 as _c10
+        include(run, _c10, views, tier, "IppRequestResponse::new")
     run.explanation = (
         "R-ORDERLIST / R-ENDTAG: the emission schedule of IppAttributes::to_bytes is extracted as an ordered event tree "
         "from the resolved HIR. The operation delimiter must be the first emission on every path; the ordered part is a "
@@ -148,7 +152,7 @@ def check(run, views, tier, with_ops=True):
                             n_emit += 1
                             v = e.value
                             good = (e.kind == "buf" and is_call(v, "ipp::attribute::IppAttribute::to_bytes") and v[2][0][0] == "proj"
-                                    and is_call(v[2][0][1], "std::collections::HashMap::<K, V, S, A>::get")
+                                    and is_call(v[2][0][1]) and is_map_call(v[2][0][1][1], "get")
                                     and attrs_of_first_group(v[2][0][1][2][0]) and v[2][0][1][2][1][0] == "elem")
                             if not good:
                                 okb, why = False, "ordered loop emits %s" % tshow(v)[:200]
